@@ -1,14 +1,14 @@
 """V js_force_padding: the JS backend's decision when a nested two-scalar struct must be passed with its padding slots
 ("padded direct", docs/wasm_abi_quirks.md).  Statement-fragment extraction (E15) from js::gen::generate_fields."""
 import re
-from rsrc import Src, Piece, match_close
+from rsrc import Src, Piece, match_close, rule_panics
 from verus_engine import VerusFile, CANARY
 from common import Undecided
 import vhelp
 
 NAME = "js_force_padding"
 ENGINE = "verus"
-PROPERTIES = {"C08": "flattened argument list has the padding slots the wasm C ABI prescribes: a 2-scalar struct nested in a struct with >= 3 scalars is padded, nested in a 2-scalar struct it follows the caller, otherwise not forced"}
+PROPERTIES = {"C08": "number of explicit padding slots emitted after a field == the layout's padding_count (and caller-decided padding exactly for 2-scalar structs); flattened argument list has the padding slots the wasm C ABI prescribes: a 2-scalar struct nested in a struct with >= 3 scalars is padded, nested in a 2-scalar struct it follows the caller, otherwise not forced"}
 GEN = "tool/src/js/gen.rs"
 CONV = "tool/src/js/converter.rs"
 LAYOUT = "tool/src/js/layout.rs"
@@ -27,6 +27,84 @@ pub open spec fn spec_force(fsc: ScalarCount, ssc: ScalarCount, field_is_struct:
     else { ForcePaddingStatus::NoForce }
 }
 """
+
+
+PAD_PRELUDE = r"""
+// ---- E6t: generated JS text carried as a tagged abstract value: which template literal produced it + how many `0` slots
+pub enum JsKind { Empty, MaybePadding, Explicit }
+pub struct JsText { pub kind: JsKind, pub slots: usize, pub closed: bool }
+impl JsText {
+    pub fn empty() -> (r: JsText) ensures r == (JsText { kind: JsKind::Empty, slots: 0, closed: true }) { JsText { kind: JsKind::Empty, slots: 0, closed: true } }
+    pub fn maybe_padding(n: usize) -> (r: JsText) ensures r == (JsText { kind: JsKind::MaybePadding, slots: n, closed: true }) { JsText { kind: JsKind::MaybePadding, slots: n, closed: true } }
+    pub fn explicit_start() -> (r: JsText) ensures r == (JsText { kind: JsKind::Explicit, slots: 0, closed: false }) { JsText { kind: JsKind::Explicit, slots: 0, closed: false } }
+    pub fn push_zero(&mut self) requires old(self).slots < usize::MAX, !old(self).closed
+        ensures *final(self) == (JsText { slots: (old(self).slots + 1) as usize, ..*old(self) }) { self.slots = self.slots + 1; }
+    pub fn push_last_zero(&mut self) requires old(self).slots < usize::MAX, !old(self).closed
+        ensures *final(self) == (JsText { slots: (old(self).slots + 1) as usize, closed: true, ..*old(self) }) { self.slots = self.slots + 1; self.closed = true; }
+}
+// oracle (docs/wasm_abi_quirks.md + the layout): after a field that is followed by `padding` padding units
+//  * nothing if padding == 0;
+//  * in a two-scalar struct ("direct" unless the caller forces "padded direct"): the caller-decided form carrying `padding` slots,
+//    and the struct reports that it needs the forcePadding argument;
+//  * otherwise exactly `padding` literal zero slots, the list properly terminated.
+pub open spec fn spec_padding_after(padding: usize, ssc: ScalarCount) -> JsText {
+    if padding == 0 { JsText { kind: JsKind::Empty, slots: 0, closed: true } }
+    else if ssc == ScalarCount::Scalars(2) { JsText { kind: JsKind::MaybePadding, slots: padding, closed: true } }
+    else { JsText { kind: JsKind::Explicit, slots: padding, closed: true } }
+}
+"""
+
+
+def build_padding_after(vf, gen, it):
+    body = gen.slice(it["body_open"], it["body_close"])
+    m = re.search(r"let maybe_padding_after = if ", body)
+    if not m:
+        raise Undecided("anchor-lost", "generate_fields: `let maybe_padding_after = if ..` not found")
+    # statement span from the vx closure-internal text: find the terminating `;` of the if/else expression
+    bo = body.index("{", m.end())
+    bc = match_close(body, bo)
+    rest = body[bc + 1:]
+    m2 = re.match(r"\s*else\s*\{", rest)
+    if not m2:
+        raise Undecided("anchor-lost", "maybe_padding_after: else branch not found")
+    eo = bc + 1 + m2.end() - 1
+    ec = match_close(body, eo)
+    semi = body.index(";", ec)
+    a = it["body_open"] + m.start()
+    b = it["body_open"] + semi + 1
+    loops = [l for l in it.get("loops", []) if a <= l["start"] < b]
+    frag = {"path": it["path"] + "#let maybe_padding_after", "kind": "stmt", "start": a, "after_attrs": a, "end": b, "loops": loops}
+    p = Piece(gen, frag)
+    p.expect_loops(1)
+    p.loop_spec(0, """                        invariant
+                            out.kind == JsKind::Explicit, padding > 0,
+                            out.slots == i, out.closed == (i == padding),""")
+    p.sub("E15", r"struct_field_info\.fields\[i\]\.padding_field_width", "pfw", count=1, why="free variable of the fragment -> parameter")
+    p.sub("E15", r"struct_field_info\.scalar_count", "ssc", count=None, why="free variable of the fragment -> parameter")
+    p.sub("E15", r"struct_field_info\.fields\[i\]\.scalar_count", "fsc", count=None, why="free variable of the fragment -> parameter")
+    p.sub("E15", r"struct_def\.fields\.len\(\)", "nfields", count=None, why="free variable of the fragment -> parameter")
+    p.sub("E15", r"needs_force_padding = true;", "*needs_force_padding = true;", count=None, why="captured mutable local -> &mut parameter")
+    p.sub("E6t", r'format!\(", \.\.\.diplomatRuntime\.maybePaddingFields\(forcePadding, \{padding\}[^"]*"\)', "JsText::maybe_padding(padding)", count=1,
+          why="template literal `maybePaddingFields(forcePadding, {padding} ..)` -> tagged abstract text carrying the slot count")
+    p.sub("E6t", r'format!\(", /\* \[\{padding\} x \{padding_size_str\}\] padding \*/ "\)', "JsText::explicit_start()", count=1, why="start of the explicit padding list")
+    p.sub("E6t", r'write!\(out, "0, "\)\.unwrap\(\);', "out.push_zero();", count=1, why="one literal zero slot")
+    p.sub("E6t", r'write!\(out, "0 /\* end padding \*/"\)\.unwrap\(\);', "out.push_last_zero();", count=1, why="the last literal zero slot")
+    p.sub("E6t", r'"".into\(\)', "JsText::empty()", count=1, why="empty text")
+    p.fn("E5", rule_panics, why="unreachable! arm becomes an obligation")
+    text = p.render()
+    vf.add(PAD_PRELUDE)
+    vf.add("// E15: statement fragment of generate_fields wrapped in a function of the values it reads\n"
+           "// (parameters: every layout value in scope of the statement; the oracle reads only padding and the struct's scalar count)\n"
+           "fn js_padding_after(padding: usize, pfw: usize, ssc: ScalarCount, fsc: ScalarCount, nfields: usize, i: usize, needs_force_padding: &mut bool) -> (r: JsText)\n"
+           "    requires padding > 0 ==> (pfw == 1 || pfw == 2 || pfw == 4 || pfw == 8),   // alignment of a wasm32 scalar (layout_arith / layout_prims)\n"
+           f"    ensures {CANARY} r == spec_padding_after(padding, ssc),\n"
+           "        (padding > 0 && ssc == ScalarCount::Scalars(2)) ==> *final(needs_force_padding),\n"
+           "        !(padding > 0 && ssc == ScalarCount::Scalars(2)) ==> *final(needs_force_padding) == *old(needs_force_padding),\n{\n            ",
+           origin={"file": GEN, "item": frag["path"], "line": gen.line_of(a), "end_line": gen.line_of(b)})
+    vf.add(text, origin={"file": GEN, "item": frag["path"], "line": gen.line_of(a), "end_line": gen.line_of(b)}, edits=p.log)
+    vf.add("\n            maybe_padding_after\n}\n")
+    vf.functions.append({"path": frag["path"], "file": GEN, "line": gen.line_of(a), "end_line": gen.line_of(b), "engine": "verus", "mode": "verus (statement fragment)", "bound": "none"})
+    vf.expected.append("js_padding_after")
 
 
 def build(tier):
@@ -63,18 +141,22 @@ def build(tier):
            f"    ensures {CANARY} r == spec_force(fsc, ssc, field_is_struct),\n"
            "        // the caller is told when a PassThrough decision was taken\n"
            "        (r is PassThrough) ==> *final(needs_force_padding),\n"
-           "        !(r is PassThrough) ==> *final(needs_force_padding) == *old(needs_force_padding),\n{\n            ")
+           "        !(r is PassThrough) ==> *final(needs_force_padding) == *old(needs_force_padding),\n{\n            ",
+           origin={"file": GEN, "item": frag["path"], "line": gen.line_of(a), "end_line": gen.line_of(b)})
     vf.add(text, origin={"file": GEN, "item": frag["path"], "line": gen.line_of(a), "end_line": gen.line_of(b)}, edits=p.log)
     vf.add("\n            force_padding\n}\n")
     vf.functions.append({"path": frag["path"], "file": GEN, "line": gen.line_of(a), "end_line": gen.line_of(b), "engine": "verus", "mode": "verus (statement fragment)", "bound": "none"})
     vf.expected.append("js_force_padding")
+    build_padding_after(vf, gen, it)
     vf.add(vhelp.FOOTER)
     return vf
 
 
-CANARY_FUNCTIONS = ["js_force_padding"]
+CANARY_FUNCTIONS = ["js_force_padding", "js_padding_after"]
 ASSUMPTIONS = [
     "E15: the `let force_padding = match (..) {..};` statement of generate_fields is verified in isolation; its free variables (field scalar count, struct scalar count, `field.ty is Struct`, the captured `needs_force_padding`) become parameters",
+    "E6t: in `let maybe_padding_after = ..` the four text-producing expressions are replaced by tagged abstract constructors keyed on their template literal (maybePaddingFields(..{padding}..) / explicit list start / `0, ` / `0 /* end padding */` / empty); the rendered characters are dropped, the number of slots is kept",
+    "padding_field_width in {1,2,4,8} whenever padding_count > 0 is a precondition (alignment of a wasm32 scalar)",
     "the oracle is written from docs/wasm_abi_quirks.md (legacy Rust wasm ABI)",
 ]
 UNVERIFIED = {"C08": ["how the decision is rendered (converter.rs / struct.js.jinja)", "js.abi = spec path"]}
